@@ -952,6 +952,22 @@ func emitGuards(w *bytes.Buffer, pi *pkgInfo, repo, prefix, name string) int {
 					}
 				}
 			}
+		case *ast.DeclStmt:
+			// var a, b = e1, e2  /  var x T = e
+			if gd, ok := x.Decl.(*ast.GenDecl); ok && gd.Tok == token.VAR {
+				for _, sp := range gd.Specs {
+					vs := sp.(*ast.ValueSpec)
+					if len(vs.Values) == len(vs.Names) {
+						for i, r := range vs.Values {
+							if hasOperator(r) && pi.info.Types[r].Value == nil {
+								emit("assign", r, "set_"+vs.Names[i].Name)
+							} else {
+								emitForced("store", r, "let_"+vs.Names[i].Name)
+							}
+						}
+					}
+				}
+			}
 		case *ast.SwitchStmt:
 			// tagged switch over an integer / boolean: every arm is the test  tag == value
 			if x.Tag != nil {
@@ -992,6 +1008,29 @@ func emitGuards(w *bytes.Buffer, pi *pkgInfo, repo, prefix, name string) int {
 				emitAt("assign", be, label, x.Pos(), false)
 			}
 		case *ast.AssignStmt:
+			if len(x.Rhs) == 1 {
+				if call, ok := x.Rhs[0].(*ast.CallExpr); ok {
+					if _, basic := basicOf(pi.info.TypeOf(call)); !basic || len(x.Lhs) > 1 {
+						var names []string
+						for _, l := range x.Lhs {
+							if id, ok := l.(*ast.Ident); ok && id.Name != "_" {
+								names = append(names, id.Name)
+							}
+						}
+						if len(names) > 0 {
+							label := "bind_" + strings.Join(names, "_")
+							count[label]++
+							nm := fmt.Sprintf("%s__%s", base, label)
+							if count[label] > 1 {
+								nm = fmt.Sprintf("%s__%s_%d", base, label, count[label])
+							}
+							fmt.Fprintf(w, "(* %s:%d %s  bind: %s *)\n", pi.relfile(x.Pos(), repo), pi.fset.Position(x.Pos()).Line, name, cmt(pi.srcOf(x)))
+							fmt.Fprintf(w, "Definition %s_atoms : list string := [\"%s\"]%%string.\n\n", nm, strings.ReplaceAll(pi.srcOf(call), "\"", "'"))
+							n++
+						}
+					}
+				}
+			}
 			if len(x.Lhs) == len(x.Rhs) {
 				for i, r := range x.Rhs {
 					label := "assign"
